@@ -35,7 +35,7 @@ for q in _q_variants:
 PLAN["C04"] = {
     "quick": _c04_quick,
     "thorough": _c04_thorough,
-    "budget_s": {"quick": 170, "thorough": 1500},
+    "budget_s": {"quick": 170, "thorough": 1200},
     "rule": "programs: T threads x m operations over {push, try_pop} (all assignments, thread-symmetric duplicates and pop-free programs pruned), "
             "0/1 prefilled elements, final drain by T0; node sizes entries_per_node 1|2, pop_retries 0|1; oracle: Wing-Gong linearizability against a "
             "sequential FIFO (std::deque-like) + heap lifetime shadow + happens-before race detector + solo-progress monitor",
@@ -83,7 +83,7 @@ for r in RECL_ALL:
 _c01_thorough.append(run("reclaim", "proto_he", c=3, heap="reuse", opt={"fixed": 2, "T": 3, "m": 2}, weight=6.0))
 _c01_thorough.append(run("reclaim", "proto_he", c=2, d=1, mode="wmm", heap="reuse", opt={"fixed": 2, "T": 3, "m": 2}, weight=2.0))
 PLAN["C01"] = {
-    "quick": _c01_quick, "thorough": _c01_thorough, "budget_s": {"quick": 190, "thorough": 1700},
+    "quick": _c01_quick, "thorough": _c01_thorough, "budget_s": {"quick": 190, "thorough": 1300},
     "rule": "client programs: T threads x m operations over {acquire+deref, acquire+hold across later operations, acquire_if_equal, copy/assign then reset the original, "
             "move/swap, unlink by CAS + reclaim (replace/remove), two acquires inside a region_guard} on 1-2 shared concurrent_ptr cells, all assignments enumerated "
             "(symmetric duplicates and programs without an unlinker pruned); oracle: ledger (constructed/destroyed per node id) consulted at every dereference through a "
@@ -108,7 +108,7 @@ for r in RECL_ALL:
 for r in ["hp", "he", "qsbr", "ebr", "nebr", "debra", "gebr_lazy", "gebr_thr", "lfrc"]:
     _c02_quick.append(run("reclaim", "proto_" + r, c=2, opt={"ops": 0x62, "allow_update_only": 1}, weight=1.5))
 PLAN["C02"] = {
-    "quick": _c02_quick, "thorough": _c02_thorough, "budget_s": {"quick": 170, "thorough": 1500},
+    "quick": _c02_quick, "thorough": _c02_thorough, "budget_s": {"quick": 170, "thorough": 1100},
     "rule": "client programs as for C01 with updaters only / updaters + holders, threads that exit early (operation `none`), 2-3 threads and up to 2 thread "
             "generations; stateful deleter (carries the id of the node it belongs to; default_delete for lock_free_ref_count which accepts nothing else); after all "
             "threads exited T0 unlinks what is still published and performs a public-API flush (8 rounds: region_guard + retire of a fresh dummy); census: every "
@@ -135,7 +135,7 @@ for r in RECL_ALL:
 for r in ["hp", "hpd", "he", "hed", "lfrc"]:
     _c17_thorough.append(run("reclaim", "proto_" + r, c=3, opt={"ops": 0x22, "T": 3, "m": 1}, weight=4.0))
 PLAN["C17"] = {
-    "quick": _c17_quick, "thorough": _c17_thorough, "budget_s": {"quick": 170, "thorough": 1500},
+    "quick": _c17_quick, "thorough": _c17_thorough, "budget_s": {"quick": 170, "thorough": 1100},
     "rule": "G = 2..3 generations of T = 1..2 overlapping threads (fresh pthreads, thread_local reclaimer state constructed and destroyed per thread, destructors explored "
             "as part of the execution), each running an enumerated program of guarded reads / holds / unlink+reclaim; after every generation T0 flushes through the "
             "public API and checks (a) the C01/C02 oracles across record reuse, (b) the census: everything retired so far is destroyed although its retirer has exited, "
@@ -163,7 +163,7 @@ PLAN["C05"] = {
                  run("bounded", "nikolaev", c=3, opt={"cap": 4, "fixed": 1, "prefill": 1}, weight=4), run("bounded", "vyukov", c=3, opt={"cap": 2, "fixed": 1, "prefill": 0}, weight=4), run("bounded", "nikolaev_p0", c=2, opt={"cap": 1}),
                  run("bounded", "nikolaev", c=2, opt={"cap": 2, "T": 3, "m": 1}), run("bounded", "nikolaev", c=2, opt={"cap": 2, "T": 2, "m": 3}, weight=4),
                  run("bounded", "vyukov", c=2, opt={"cap": 2}, mode="wmm", d=1, weight=4), run("bounded", "nikolaev", c=2, opt={"cap": 2}, mode="wmm", d=1, weight=4)],
-    "budget_s": {"quick": 120, "thorough": 1500},
+    "budget_s": {"quick": 120, "thorough": 900},
     "rule": "programs: T threads x m operations over {try_push_strong, try_pop_strong, try_push_weak, try_pop_weak} (vyukov) / {try_push, try_pop} (nikolaev), all "
             "assignments, prefill 0..capacity (enumerated), optional wrap-around prefix (push/pop pairs advancing the ring indexes), an adversarial fixed family "
             "(one pusher | one thread pushing four times, lapping the index ring | one popper), at quiescence pushes until the queue reports full (capacity "
@@ -202,7 +202,7 @@ _c06_thorough = [
     run("kfifo", "kf_hp", c=0, r=3, opt={"T": 1, "m": 8, "k": 2, "prefill": 0}),
 ] + [run("kfifo", "kf_" + r, c=2, r=1, heap="reuse", opt={"k": 2}, weight=3) for r in ["hp", "he", "ebr"]] + [run("kfifo", "kf_" + r, c=2, heap="reuse", opt={"k": 1, "prefill": 0}, weight=2) for r in ["hp", "he"]]
 PLAN["C06"] = {
-    "quick": _c06_quick, "thorough": _c06_thorough, "budget_s": {"quick": 150, "thorough": 1500},
+    "quick": _c06_quick, "thorough": _c06_thorough, "budget_s": {"quick": 150, "thorough": 1200},
     "rule": "programs: T threads x m operations over {push/try_push, try_pop}, all assignments, prefill 0..2, final drain; k in 1..3, segments 1..3; utils::random() "
             "(hook XENIUM_VERIF) is a recorded choice over [0,k): default 0, r deviations enumerated; sequential runs: all operation sequences of depth 6..8; boundary "
             "runs: one thread fills and cycles rings of k*segments = 2^16-1, 2^16, 2^16+1, 70000, 2^17+1 slots; oracle: Wing-Gong linearizability against the k-relaxed "
@@ -230,7 +230,7 @@ for t in ["ram_e1_up_hp", "ram_e2_up_hp", "nik_e1_up_hp", "kf_k1_up_hp", "kb_k1s
     _c07_thorough.append(run("ownership", t, c=3, opt={"prefill": 1}, weight=6))
     _c07_thorough.append(run("ownership", t, c=2, heap="reuse", weight=1))
 PLAN["C07"] = {
-    "quick": _c07_quick, "thorough": _c07_thorough, "budget_s": {"quick": 150, "thorough": 1500},
+    "quick": _c07_quick, "thorough": _c07_thorough, "budget_s": {"quick": 150, "thorough": 1100},
     "rule": "programs: T threads x m operations over {push/try_push, try_pop}, all assignments (at least one push), then destruction of the queue WITHOUT draining; "
             "element kinds: std::unique_ptr<E>, raw E* (client keeps ownership), non-trivial movable V (identity travels with moves); all seven queue types with node / "
             "segment / ring sizes 1-2(-4); sequential runs: all sequences of depth 6..8; oracle: ledger of constructions / destructions per element id - handed-out "
@@ -260,7 +260,7 @@ PLAN["C12"] = {
                 [run("deque", "grow2", c=3, opt={"offset": k, "prefill": 2, "m": 3, "s": 1}, weight=1) for k in range(3, 13)] +
                 [run("deque", "grow2", c=3, opt={"offset": k, "prefill": 2, "m": 4, "s": 2}, weight=3) for k in (4, 7)] +
                 [run("deque", "grow4", c=3, opt={"offset": k, "prefill": 4, "m": 5, "s": 1}, weight=3) for k in (8, 11, 13)],
-    "budget_s": {"quick": 120, "thorough": 1500},
+    "budget_s": {"quick": 120, "thorough": 1000},
     "rule": "owner program of m operations over {try_push, try_pop} (all assignments), 1-2 thieves with s try_steal each, index offset 0..5 (push+steal pairs before the "
             "interesting part, enumerated) and 0..2 prefilled items (enumerated), capacity<2|4> with the growing and the fixed container, final drain; a fixed family "
             "'two growths overtake one steal' (full array, 3-5 further pushes against one thief, offsets 3..13 covering both halves of the 4C index cycle, c=3); sequential runs: "
@@ -283,7 +283,7 @@ PLAN["C13"] = {
                  run("lr_seqlock", "left_right", c=3, opt={"updates": 3, "loads": 3}, weight=2),
                  run("lr_seqlock", "left_right", c=2, mode="wmm", d=2, W=64, weight=2), run("lr_seqlock", "left_right", c=3, mode="wmm", d=1, weight=2),
                  run("lr_seqlock", "left_right", c=3, variant="tsanv")],
-    "budget_s": {"quick": 100, "thorough": 1200},
+    "budget_s": {"quick": 100, "thorough": 700},
     "rule": "1-2 writers x 1-3 updates (functor increments two plain fields), 1-3 readers x 1-3 reads (functor reads both fields); std::mutex and "
             "std::this_thread::yield are modelled (blocking lock, spin-wait hand-off); oracle: happens-before race detector on the functors' plain accesses (a reader on "
             "the instance being written is a data race on every schedule that overlaps them), a==b in every read, functor applied exactly twice per update, both "
@@ -310,7 +310,7 @@ PLAN["C14"] = {
                  run("lr_seqlock", "seqlock_b16_s2", c=3, opt={"stores": 4, "loads": 3}, weight=3),
                  run("lr_seqlock", "seqlock_b16_s2", c=3, mode="wmm", d=2, W=64, weight=3), run("lr_seqlock", "seqlock_b24_s2", c=2, mode="wmm", d=2, weight=2),
                  run("lr_seqlock", "seqlock_b16_s1", c=3, mode="wmm", d=2, weight=2), run("lr_seqlock", "seqlock_b16_s2", c=4, variant="tsanv")],
-    "budget_s": {"quick": 100, "thorough": 1200},
+    "budget_s": {"quick": 100, "thorough": 800},
     "rule": "sequential: for types of 9, 12, 16, 20, 24, 28 bytes (alignments 1, 4, 8) and 1..8 slots every byte position is written through store() and update() and "
             "compared byte-wise after load(); concurrent: 1-2 writers (store / update alternating) x 1-3 readers, every byte of a value is a function of its tag so a torn "
             "or truncated result is visible; oracle: byte-wise consistency of every loaded value and of every value handed to an update functor, Wing-Gong linearizability "
@@ -346,7 +346,7 @@ _c08_thorough = [run("hm", "set_" + r, c=1, opt={"ops": 0x97}, weight=3 if r == 
     [run("hm", "map_b1_memo_scr_hp", c=0, opt={"T": 1, "m": 5, "ops": 0x1ff}, weight=3), run("hm", "set_hp", c=0, opt={"T": 1, "m": 6, "ops": 0x9f}, weight=3),
      run("hm", "map_b2_memo_scr_hp", c=0, opt={"T": 1, "m": 4, "ops": 0x1ff, "keys": 3}, weight=3), run("hm", "set_greater_hp", c=0, opt={"T": 1, "m": 5, "ops": 0x9f, "keys": 3}, weight=3)]
 PLAN["C08"] = {
-    "quick": _c08_quick, "thorough": _c08_thorough, "budget_s": {"quick": 170, "thorough": 1700},
+    "quick": _c08_quick, "thorough": _c08_thorough, "budget_s": {"quick": 170, "thorough": 1300},
     "rule": "programs: T threads x m operations over subsets of {emplace, erase(key), contains, find, emplace_or_get, get_or_emplace, get_or_emplace_lazy, erase(find(key)), "
             "operator[]} on 1-3 keys (all assignments; programs without update, without a key shared by two threads, and symmetric duplicates pruned), all prefill subsets, "
             "final iteration as a snapshot operation; bucket counts 1-2, memoize_hash on/off, identity / constant / order-scrambling hash functors, std::greater compare; "
@@ -372,7 +372,7 @@ PLAN["C09"] = {
                 [run("hm", t, c=2, opt={"keys": 2}, weight=8 if "stamp" in t else 4) for t in _it_conc] +
                 [run("hm", t, c=1, opt={"keys": 3, "m": 2}, weight=3) for t in ["iset_hp", "imap_b1_memo_scr_hp", "iset_lfrc", "imap_b2_memo_scr_hp"]] +
                 [run("hm", t, c=1, opt={"keys": 2, "m": 1, "updaters": 2}, weight=3) for t in ["iset_hp", "imap_b1_memo_scr_hp", "iset_ebr", "iset_lfrc"]],
-    "budget_s": {"quick": 150, "thorough": 1700},
+    "budget_s": {"quick": 150, "thorough": 1200},
     "rule": "a traversing thread (begin, dereference, then per position an enumerated choice of ++, continue on a copy while the original is destroyed, or it = erase(it)) "
             "against 1-2 updater threads running enumerated emplace/erase programs on 2-3 keys, all non-empty prefill subsets; sequential runs: the traversing thread itself "
             "performs an enumerated erase/emplace of any key through the container between iterator steps (up to 3-4 steps); HP/HE with 8 static slots; oracle on the recorded "
@@ -404,7 +404,7 @@ _c10_thorough = [run("vy", "map_" + t, c=0, opt={"T": 1, "m": 4, "keys": 5, "cap
     [run("vy", "map_" + t, c=2, heap="reuse", opt={"m": 1, "keys": 5, "prefill": 31, "cap": 128, "ops": 0x27}, weight=3) for t in ["tt_i1_hp", "tt_i1_he", "tn_i1_hp", "tm_i1_hp"]] + \
     [run("vy", "map_" + t, c=1, heap="reuse", opt={"keys": 2, "cap": 1, "ops": 0x27}, weight=1) for t in ["tt_i1_hp", "tt_i1_he", "tt_i1_ebr", "st_s1_hp", "tm_i1_hp"]]
 PLAN["C10"] = {
-    "quick": _c10_quick, "thorough": _c10_thorough, "budget_s": {"quick": 170, "thorough": 1700},
+    "quick": _c10_quick, "thorough": _c10_thorough, "budget_s": {"quick": 170, "thorough": 1300},
     "rule": "programs: T threads x m operations over subsets of {emplace, erase, try_get_value, find, get_or_emplace, extract} on 2-6 keys that share one bucket "
             "(keys congruent mod 128 / constant hash) or two buckets; initial capacity 1 (every fourth key in a bucket forces grow) and 128 (extension items), "
             "five key/value storage specialisations (trivial/non-trivial key x trivial / non-trivial / managed_ptr value); sequential runs: all sequences of depth 3-4 "
@@ -433,7 +433,7 @@ PLAN["C11"] = {
                 [run("vy", t, c=2, opt={"steps": 2, "keys": 5, "prefill": 31, "readers": 1, "m": 1}, weight=6) for t in ["it_tt_i1_hp", "it_st_s1_hp"]] +
                 [run("vy", t, c=1, opt={"steps": 3, "keys": 4, "prefill": 15, "updaters": 1, "m": 1}, weight=4) for t in ["it_tt_i2_hp", "it_st_s2_hp", "it_sm_s2_ebr"]] +
                 [run("vy", "it_tt_i2_hp", c=1, opt={"steps": 2, "keys": 4, "prefill": 15, "updaters": 1, "readers": 1, "m": 1}, weight=4)],
-    "budget_s": {"quick": 150, "thorough": 1700},
+    "budget_s": {"quick": 150, "thorough": 1200},
     "rule": "one iterator thread performs an enumerated sequence (2-5 steps) of {begin, ++, erase(iterator), reset, find(key) move-assigned onto the iterator, ordinary "
             "emplace/erase} (programs that would wait for their own bucket lock are pruned as illegal), on 128-bucket maps whose keys share one or two buckets with populated "
             "extension lists; concurrently 0-1 lock-free readers (try_get_value) and 0-1 writers on enumerated keys; afterwards every key is read, one key per bucket is "
@@ -465,7 +465,7 @@ PLAN["C15"] = {
                 [run("guards", "snap_" + r, c=3, opt={"replaces": 2, "acquires": 2}, weight=3) for r in ["hp", "he", "ebr", "qsbr", "lfrc"]] +
                 [run("guards", "snap_" + r, c=2, opt={"replaces": 3, "acquires": 3}, weight=3) for r in ["hp", "ebr", "lfrc", "stamp"]] +
                 [run("guards", "snap_" + r, c=2, mode="wmm", d=1, weight=2) for r in ["hp", "he", "ebr", "qsbr"]],
-    "budget_s": {"quick": 150, "thorough": 3000},
+    "budget_s": {"quick": 150, "thorough": 2200},
     "rule": "marked_ptr: mark widths 0..32 x MaxUpperMarkBits {0,8,16} x 5 pointer patterns (null, lowest / highest / alternating canonical user address aligned as the width "
             "requires): all 2^w mark values for w <= 14 (quick) / 24 and w = 32 (thorough), boundary families (0, all ones, walking one/zero, 2^k+-1) above; get/mark/bool/==/!= / "
             "reset against the (pointer, mark) pair; concurrent_ptr store/load/CAS round trips; guard algebra: all sequences of depth 3-4 over {acquire, acquire_if_equal "
@@ -503,7 +503,7 @@ PLAN["C18"] = {
                  run("guards", "slots_he_k1", c=0, opt={"depth": 6, "guards": 2, "fill": 1, "ops": 0x99}, weight=3), run("guards", "slots_he_k2", c=0, opt={"depth": 5, "guards": 3, "altfill": 1, "ops": 0x99}, weight=6),
                  run("guards", "slots_he_k3", c=0, opt={"depth": 4, "guards": 4, "altfill": 1, "ops": 0x99}, weight=3), run("guards", "slots_hp_k2", c=0, opt={"depth": 5, "guards": 3, "altfill": 1, "ops": 0x99}, weight=4),
                  run("guards", "slots_hed_k1", c=0, opt={"depth": 5, "guards": 3, "altfill": 1, "ops": 0x99}, weight=3)],
-    "budget_s": {"quick": 170, "thorough": 1700},
+    "budget_s": {"quick": 170, "thorough": 1200},
     "rule": "one thread, all sequences of depth 3-4 over guard operations {acquire, acquire_if_equal, reset, copy-assign, move-assign, swap, reclaim, copy-construct, construct from "
             "pointer} on K+1..K+2 guard variables (K in 1,2,3,5; for K>=3 the first guards are pre-filled and the alphabet reduced), static and dynamic strategies, hazard "
             "pointers and hazard eras, optionally repeated in 2-3 successive threads that reuse the control block; reference model counts protecting guards: an operation that "
@@ -569,7 +569,7 @@ _c03_thorough += [
     [run("queues", "%s_%s" % (q, r), c=2, variant="tsanv", weight=3) for q in ["ms", "ram_e1p1", "nik_e1p1"] for r in ["hp", "ebr"]] + \
     [run("reclaim", "proto_" + r, c=1, variant="tsanv", opt={"ops": 0xee}, weight=2) for r in RECL_ALL]
 PLAN["C03"] = {
-    "quick": _c03_quick, "thorough": _c03_thorough, "budget_s": {"quick": 170, "thorough": 3000},
+    "quick": _c03_quick, "thorough": _c03_thorough, "budget_s": {"quick": 170, "thorough": 1800},
     "rule": "part A (race freedom): the happens-before race detector (vector clocks fed only by the written memory orders, fences, mutexes, spawn/join) is armed in every execution "
             "of every check C01-C18; part B (weak executions): the harness families of C01, C04-C15 re-run in wmm mode - every atomic location keeps its modification order, a "
             "load may read any message not excluded by coherence / happens-before / seq_cst that was superseded at most W steps ago; reads-from choices are enumerated with at "
@@ -614,7 +614,7 @@ _c16_thorough = \
      run("vy", "map_st_s1_hp", c=2, solo=_SOLO, opt={"m": 1, "keys": 5, "prefill": 31, "cap": 128, "ops": 0x7}, weight=6), run("vy", "map_tt_i1_hp", c=2, solo=_SOLO, opt={"m": 1, "keys": 5, "prefill": 31, "cap": 128, "ops": 0x7}, weight=6),
      run("vy", "map_sm_s1_hp", c=1, solo=_SOLO, opt={"m": 1, "keys": 5, "prefill": 31, "cap": 128, "ops": 0x27}, weight=4)]
 PLAN["C16"] = {
-    "quick": _c16_quick, "thorough": _c16_thorough, "budget_s": {"quick": 170, "thorough": 3000},
+    "quick": _c16_quick, "thorough": _c16_thorough, "budget_s": {"quick": 170, "thorough": 1800},
     "rule": "monitor on the harnesses of C01, C04-C10, C12-C14 for the operations documented as lock-free / wait-free (harnesses flag the blocking ones: strong vyukov operations, "
             "vyukov_hash_map updates and iterators, seqlock store/update and single-slot load, left_right::update): while a thread executes such an operation, every maximal run of "
             "its own steps without interference (from operation start or from the point it is switched in - i.e. every other thread frozen wherever the explored prefix left it, "
